@@ -38,26 +38,27 @@ def gen_design(rng):
         for _ in range(rng.randrange(1, 4)):
             coord = lambda: rng.choice([0, 0, rng.randrange(0, 500), rng.randrange(1, 500)])     # explicit zeros are frequent in real DEF files
             x, y = coord(), coord()
-            pts = [('pt', x, y)]
+            ext = lambda: (rng.randrange(1, 60),) if rng.random() < 0.2 else ()          # optional extension value of a routing point, kept as written
+            pts = [('pt', x, y) + ext()]
             cx, cy = x, y
             for _ in range(rng.randrange(1, 5)):
                 r = rng.random()
                 if r < 0.35:
                     if special and rng.random() < 0.4:
-                        pts.append(('via', rng.choice(vianames), ('do', rng.randrange(1, 4), rng.randrange(1, 4), rng.randrange(1, 20), rng.randrange(1, 20))))
+                        pts.append(('via', rng.choice(vianames), ('do', rng.randrange(1, 4), rng.randrange(1, 4), rng.choice([1, -1, 1]) * rng.randrange(1, 20), rng.choice([1, 1, -1]) * rng.randrange(1, 20))))
                     else:
                         pts.append(('via', rng.choice(vianames), None if special else rng.choice([None, 'N', 'FS', 'W'])))
                 else:
                     nx, ny = coord(), coord()
                     star = rng.choice(['x', 'y', None, None])
                     if star == 'x':
-                        pts.append(('pt', None, ny))
+                        pts.append(('pt', None, ny) + ext())
                         cy = ny
                     elif star == 'y':
-                        pts.append(('pt', nx, None))
+                        pts.append(('pt', nx, None) + ext())
                         cx = nx
                     else:
-                        pts.append(('pt', nx, ny))
+                        pts.append(('pt', nx, ny) + ext())
                         cx, cy = nx, ny
             if not any(p[0] == 'pt' for p in pts[1:]) and not any(p[0] == 'via' for p in pts[1:]):
                 pts.append(('pt', x + 10, None))
@@ -75,7 +76,7 @@ def gen_design(rng):
 
 
 def pt(p):
-    return f"( {'*' if p[1] is None else p[1]} {'*' if p[2] is None else p[2]} )"
+    return f"( {'*' if p[1] is None else p[1]} {'*' if p[2] is None else p[2]}{' ' + str(p[3]) if len(p) > 3 else ''} )"
 
 
 def render(D, rng):
@@ -141,12 +142,12 @@ def geometry(n):
     wires, vias = {}, {}
     for s in n['route'] or []:
         x, y = s['pts'][0][1], s['pts'][0][2]
-        pts = [(x, y)]
+        pts = [(x, y) + tuple(s['pts'][0][3:])]
         for p in s['pts'][1:]:
             if p[0] == 'pt':
                 x = x if p[1] is None else p[1]
                 y = y if p[2] is None else p[2]
-                pts.append((x, y))
+                pts.append((x, y) + tuple(p[3:]))
             else:
                 if isinstance(p[2], tuple):
                     _, nx, ny, sx, sy = p[2]
@@ -205,7 +206,7 @@ def check(D, text):
                 if [tuple(p) for p in g.pins] != n['pins'] or getattr(g, 'use', None) != n['use']:
                     out.append((f'{sec}:connectivity', f'{n["name"]}: pins {g.pins} use {getattr(g, "use", None)} != {n["pins"]} {n["use"]}'))
                 wires, vias = geometry(n)
-                gw = {k: [(w, [tuple(p[:2]) for p in pts]) for w, pts in v] for k, v in dict(g.wires).items()}
+                gw = {k: [(w, [tuple(p) for p in pts]) for w, pts in v] for k, v in dict(g.wires).items()}
                 if gw != wires:
                     star = any(None in p for v in gw.values() for w, pts in v for p in pts)
                     out.append((f'geometry:{kind}:wires' + (':wildcard-unresolved' if star else ''), f'net {n["name"]}: wires {gw} != {wires}'))
